@@ -62,6 +62,16 @@ theorem runSelf_eq_obsFlow (X : Ext) (f : Fn) (args : List Val) (p : String) (ps
   rw [h]
   cases f.flow X args <;> rfl
 
+/-- `orch_eval` that leaves `builtin` calls and comprehensions (`compM`) folded, so that they can be rewritten with lemmas about
+    embedded lists (`compM_map_ok`, `sum_ones`, …) before they get stuck on a symbolic list -/
+syntax "orch_eval_nb" ("[" Lean.Parser.Tactic.simpLemma,* "]")? : tactic
+macro_rules
+  | `(tactic| orch_eval_nb [$ls,*]) =>
+    `(tactic| simp [Fn.run, Fn.runGen, Fn.runTr, Fn.flow, initEnv, execBlock, exec, eval, evalList, withVal, withBool, bindAll,
+        St.set, Res.bind, Res.map, getAttr, binop, cmpop, ordOp, memOf, Val.eqv, Val.eqv.eqvList, truthy_int, truthy_bool,
+        truthy_str, truthy_none, truthy_list, truthy_dict, truthy_record,
+        Val.asList, Val.asInt, isNone, intsOf, anyM, allM, forLoop, List.lookup, $ls,*])
+
 /-- `orch_eval` that also uses every hypothesis in scope -/
 macro "orch_eval_all" : tactic =>
   `(tactic| simp [*, Fn.run, Fn.runGen, Fn.runTr, Fn.flow, initEnv, execBlock, exec, eval, evalList, withVal, withBool, bindAll,
